@@ -12,6 +12,7 @@ tree stream and its monitors (see docs/C10.md).
 -/
 import Mistral.Lemmas.TreePause
 import Mistral.Lemmas.TreeProp
+import Mistral.Lemmas.TreeFollow
 
 namespace Mistral.Props.C10Tree
 open Mistral Mistral.Tree
@@ -196,5 +197,35 @@ theorem pause_only_pauses (c : Cfg) (evs : List Event) (a : Nat) (e : Exec)
 
 /-- non-vacuity: in the three nested executions the innermost one is below the root -/
 example : below (run chain3 chain3Up) 0 (run chain3 chain3Up).execs.length 2 = true := by decide +kernel
+
+
+/-- "... are PAUSED" together with the tasks that wait for them — for EVERY reachable tree: if the pause request on
+    an unfinished execution `a` pauses an execution `y` at or below `a` that was RUNNING, then (the workflow that
+    owns the calling task `t` of `y` not being completed)
+    * a plain calling task that was RUNNING is PAUSED in the SAME transaction, and
+    * for a with-items calling task the `_on_action_update` job of `y` is pending after the transaction. -/
+theorem pause_calling_task (c : Cfg) (evs : List Event) (a : Nat) (e : Exec)
+    (he : (run c evs).execs[a]? = some e) (hc : isCompleted e.state = false) (y : Nat) (ey : Exec)
+    (hy : (run c evs).execs[y]? = some ey) (hb : below (run c evs) a (run c evs).execs.length y = true)
+    (hr : ey.state = .RUNNING) (t : Nat) (tk : Task) (pe : Exec) (hpar : ey.parent = some t)
+    (htk : (run c evs).tasks[t]? = some tk) (hpe : (run c evs).execs[tk.wf]? = some pe)
+    (hl : isCompleted pe.state = false) :
+    (isWithItemsTask c (run c evs) t = false → tk.state = .RUNNING →
+       taskState (step c (run c evs) (.pause a)) t = some .PAUSED) ∧
+    (isWithItemsTask c (run c evs) t = true →
+       Item.jobChildUpdate y ∈ (step c (run c evs) (.pause a)).pending) := by
+  have hp := pause_subtree c evs a e he hc y ey hy hb (by rw [hr]; decide)
+  have hok := (pause_ok c (fuelOf (run c evs))).1 (run c evs) a (shape_reachable c evs)
+  have hf := (follow_ok c (fuelOf (run c evs))).1 (run c evs) a (shape_reachable c evs)
+  have hnr := hok.noraise ⟨e, he, hc⟩
+  simp only [step, hnr, Bool.false_eq_true, if_false] at hp ⊢
+  obtain ⟨e', hy', _, _⟩ := hok.mono.execs y ey hy
+  have hs' : e'.state = .PAUSED := by simpa [stateOf, hy'] using hp
+  exact hf.follow y ey e' t tk pe hy hy' hr hs' hpar htk hpe hl
+
+/-- non-vacuity: pausing the root of the three nested executions pauses the two calling tasks -/
+example : (taskState (step chain3 (run chain3 chain3Up) (.pause 0)) 0,
+           taskState (step chain3 (run chain3 chain3Up) (.pause 0)) 1) = (some .PAUSED, some .PAUSED) := by
+  decide +kernel
 
 end Mistral.Props.C10Tree
